@@ -106,6 +106,8 @@ class CutplaceApp(object):
         )
         parser.add_argument("data_paths", metavar="DATA-FILE", nargs="*", help="data file(s) to validate")
         args = parser.parse_args(argv[1:])
+        if (args.cid_path == "") or ("" in (args.data_paths or [])):
+            parser.error("name of CID-FILE and DATA-FILE must not be empty")
 
         self._log.setLevel(_tools.LOG_LEVEL_NAME_TO_LEVEL_MAP[args.log_level])
         self.is_create_sql = args.is_create_sql
